@@ -23,6 +23,13 @@ Obs(lbl, who, A) == IsA(lbl) /\ Ev.who = who /\ A /\ Adv
 \* statuses below Stopping all mean "not stopping yet"
 Low(s) == IF s < Stopping THEN Running ELSE s
 
+FreeDupDecide(s) ==
+  /\ spc[s] = "begin" /\ name # None /\ spc' = [spc EXCEPT ![s] = "dupdecided"]
+  /\ UNCHANGED <<name, pids, st, att, sres, xn, xelect, waited, lpc, lgot, nlook, seen, stale, dev>>
+FreeDupRet(s) ==
+  /\ spc[s] = "dupdecided" /\ sres' = [sres EXCEPT ![Cur(s)] = "dup"] /\ spc' = [spc EXCEPT ![s] = "idle"]
+  /\ UNCHANGED <<name, pids, st, att, xn, xelect, waited, lpc, lgot, nlook, seen, stale, dev>>
+
 SpawnEv(s) ==
   \/ Obs("obs.spawn_begin", s, SBegin(s))
   \/ Inl("new.named", s, SRegNameOk(s))
@@ -31,6 +38,11 @@ SpawnEv(s) ==
   \/ Inl("new.rollback", s, SRollback(s))
   \/ Obs("obs.spawn_ret", s, Ev.ok = 0 /\ Ev.err = "dup" /\ SRegNameDup(s))
   \/ Obs("obs.spawn_ret", s, Ev.ok = 0 /\ Ev.err = "pid" /\ SRetErr(s))
+  \* free-running runs (family registry-free; real threads, no scheduler): the result line is logged some time after
+  \* the call returned, so the failed registration took effect at some moment between the intent line and the result
+  \* line. (Engine-H runs never log this label: the decided state has no other way out.)
+  \/ (~Strict /\ Live_ /\ FreeDupDecide(s) /\ l' = l)
+  \/ Obs("obs.spawn_ret_free", s, Ev.ok = 0 /\ Ev.err = "dup" /\ FreeDupRet(s))
   \/ Obs("obs.spawn_ret", s, Ev.ok = 1 /\ SRetOk(s) /\ Ev.rs = s /\ Ev.rk = att[s])
 ExitEv(p) ==
   \* the actor's own last lookup closes its live window (d / pidreg = -1: a proxy, nothing to look up)
